@@ -161,6 +161,95 @@ fn establish_case(c: &mut Ctx, m: &'static Merchant, other: &'static Merchant, n
     }
 }
 
+/// The same substitutions with the proof handed over as the object the customer's code built, never encoded:
+/// customer and merchant in one process (simulators, integration tests, a node that is both).
+fn in_memory_case(c: &mut Ctx, m: &'static Merchant, name: &str, cust: u64, merch: u64) {
+    use zkabacus_crypto::{customer::Requested, Context, CustomerBalance, MerchantBalance};
+    let mut rng = c.rng(name);
+    let ctx = name.as_bytes().to_vec();
+    let (Ok(cb), Ok(mb)) = (CustomerBalance::try_new(cust), MerchantBalance::try_new(merch)) else { return };
+    let cid = new_channel_id(m, &mut rng, b"m", b"c");
+    let seed = rng.clone();
+    // the same proof object again and again: identical randomness gives identical objects
+    let mk = || {
+        let mut r = seed.clone();
+        Requested::new(&mut r, &m.ccfg, cid, mb, cb, &Context::new(&ctx)).1
+    };
+    c.eval();
+    if m.cfg.initialize(&mut rng, &cid, cb, mb, mk(), &Context::new(&ctx)).is_none() {
+        return c.inconclusive("C06: positive control (in-memory establish proof) not accepted");
+    }
+    c.count("positive_controls_accepted", 1);
+    let mut idb = cid.to_bytes();
+    idb[0] ^= 1;
+    let mut subs: Vec<(&str, bool)> = vec![];
+    if let Ok(cid2) = dec::<ChannelId>(&idb) {
+        subs.push(("channel-id-single-bit", m.cfg.initialize(&mut rng, &cid2, cb, mb, mk(), &Context::new(&ctx)).is_some()));
+    }
+    if let Ok(cb2) = CustomerBalance::try_new(cust.wrapping_add(1) & MAXB) {
+        if cb2.into_inner() != cust {
+            subs.push(("customer-balance+1", m.cfg.initialize(&mut rng, &cid, cb2, mb, mk(), &Context::new(&ctx)).is_some()));
+        }
+    }
+    if let Ok(mb2) = MerchantBalance::try_new(merch.wrapping_add(1) & MAXB) {
+        if mb2.into_inner() != merch {
+            subs.push(("merchant-balance+1", m.cfg.initialize(&mut rng, &cid, cb, mb2, mk(), &Context::new(&ctx)).is_some()));
+        }
+    }
+    let mut cx = ctx.clone();
+    cx[0] ^= 1;
+    subs.push(("context-byte", m.cfg.initialize(&mut rng, &cid, cb, mb, mk(), &Context::new(&cx)).is_some()));
+    for (k, acc) in subs {
+        c.eval();
+        c.distinct(&format!("establish-in-memory/{}/{}", k, class_u64(cust)));
+        if acc {
+            c.violation(&format!("C06 accepted-under-substituted-tuple proof=EstablishProof(in-memory) component={}", k), json!({"component": k}));
+        } else {
+            c.count(&format!("rejected[establish-in-memory/{}]", k), 1);
+        }
+    }
+    // pay proof objects
+    let s = match Sess::open(m, &mut rng, cust.max(5), merch, &ctx) {
+        Ok(s) => s,
+        Err(e) => return c.inconclusive(&e),
+    };
+    let ready = s.stage.bytes();
+    let seed = rng.clone();
+    let amt = 2i64;
+    let mkp = || -> Option<(zk::Nonce, zk::PayProof)> {
+        let mut r = seed.clone();
+        let rd: zk::customer::Ready = dec(&ready).ok()?;
+        let (_st, msg) = rd.start(&mut r, amount(amt).ok()?, &Context::new(&ctx), &m.ccfg).ok()?;
+        Some((msg.nonce, msg.pay_proof))
+    };
+    let Some((n0, p0)) = mkp() else { return c.inconclusive("C06: in-memory start") };
+    c.eval();
+    if m.cfg.allow_payment(&mut rng, amount(amt).unwrap(), &n0, p0, &Context::new(&ctx)).is_none() {
+        return c.inconclusive("C06: positive control (in-memory pay proof) not accepted");
+    }
+    c.count("positive_controls_accepted", 1);
+    let mut subs: Vec<(&str, bool)> = vec![];
+    if let Some((n, p)) = mkp() {
+        subs.push(("amount+1", m.cfg.allow_payment(&mut rng, amount(amt + 1).unwrap(), &n, p, &Context::new(&ctx)).is_some()));
+    }
+    if let Some((_n, p)) = mkp() {
+        let fresh = zk::internal::test_new_nonce(&mut rng);
+        subs.push(("nonce-fresh", m.cfg.allow_payment(&mut rng, amount(amt).unwrap(), &fresh, p, &Context::new(&ctx)).is_some()));
+    }
+    if let Some((n, p)) = mkp() {
+        subs.push(("context-byte", m.cfg.allow_payment(&mut rng, amount(amt).unwrap(), &n, p, &Context::new(&cx)).is_some()));
+    }
+    for (k, acc) in subs {
+        c.eval();
+        c.distinct(&format!("pay-in-memory/{}/{}", k, class_u64(cust)));
+        if acc {
+            c.violation(&format!("C06 accepted-under-substituted-tuple proof=PayProof(in-memory) component={}", k), json!({"component": k}));
+        } else {
+            c.count(&format!("rejected[pay-in-memory/{}]", k), 1);
+        }
+    }
+}
+
 fn pay_case(c: &mut Ctx, m: &'static Merchant, other: &'static Merchant, name: &str, cust: u64, merch: u64, amt: i64) {
     let mut rng = c.rng(name);
     let ctx = name.as_bytes().to_vec();
@@ -541,6 +630,17 @@ pub fn run(c: &mut Ctx) {
                 }
             });
         }
+    }
+    for (i, (cust, merch)) in [(1000u64, 10u64), (7, 0), (1 << 40, 1 << 40)].into_iter().enumerate() {
+        if i >= c.tier.pick(2usize, 3) {
+            break;
+        }
+        let name = format!("in-memory/{}", i);
+        c.case(&name, |c| {
+            if let Err(p) = guard(|| in_memory_case(c, m, &name, cust, merch)) {
+                c.violation(&format!("C06 panic loc={}", repo_rel(&p.location)), json!({"panic": p.message}));
+            }
+        });
     }
     let pays: Vec<(u64, u64, i64)> = vec![(0, MAXB, -(MAXB as i64)), (1000, 10, 7), (10, 1000, -7), (500, 500, 0), (MAXB, 0, MAXB as i64), (0, MAXB, -1), (1 << 40, 1 << 40, -(1 << 39))];
     let preps = c.tier.pick(1usize, 8);
